@@ -13,9 +13,12 @@ OPS = [
     "INSERT(a, {i}, {v})", "DISPLAY(REMOVE(a, {i}))", "DISPLAY(REMOVE(b, 1))", "a[{i}] <- {v}", "b[1] <- {v}", "DISPLAY(a[{i}])",
     "DISPLAY(s[{i}])", "DISPLAY(LENGTH(a))", "DISPLAY(LENGTH(s))", "f(a)", "f(b)", "c[1][1] <- 7", "DISPLAY(c[1])", "a <- []",
     "s <- s + \"é\"", "g(a, {i})", "b <- [a, a]", "a <- c[1]", "DISPLAY(a + b)", "b <- [] + a", "b <- a + []", "a <- [] + []",
+    # an indexed assignment whose right-hand side changes the very list being assigned into (directly or through an alias)
+    "a[{i}] <- REMOVE(a, 1)", "a[LENGTH(a)] <- REMOVE(a, 1)", "b[LENGTH(b)] <- REMOVE(a, 1)", "a[{i}] <- h(a)",
 ]
 VALS = ["0", '"x"', "NULL", "[9]", "TRUE"]
 HEADER = ("PROCEDURE f(p) {\nAPPEND(p, 100)\np <- [0]\nAPPEND(p, 1)\n}\nPROCEDURE g(p, i) {\np[i] <- \"g\"\n}\n"
+          "PROCEDURE h(p) {\nAPPEND(p, 7)\nRETURN REMOVE(p, 1)\n}\n"
           "a <- [10, 20]\nb <- [30]\nc <- [a]\ns <- \"hé!\"\n")
 SHOW = "DISPLAY(a)\nDISPLAY(b)\nDISPLAY(c)\nDISPLAY(s)\n"
 
